@@ -10,10 +10,11 @@ that string, and the plain list operations `Flat.*` / `Abs.*`); helper lemmas ar
 
 `Normal` is the decidable invariant "hereditarily: no empty part, no nested `Text`, no two adjacent
 parts of the same type info"; `C08_mk_sem` shows every constructed object satisfies it and
-`C08_history` that every operation preserves it.
+`C08_normal_preserved` / `C08_history_normal` that every operation preserves it.
 -/
 import PybtexModel.Lemmas.RichText
 import PybtexModel.Lemmas.RichTextU
+import PybtexModel.Lemmas.RichTextNormal
 import PybtexModel.Gen.RichText
 
 namespace Pybtex.Props
@@ -578,6 +579,58 @@ theorem C08_history_full_nonvacuous :
         (fun r => match r with | .ok x => some (toStr x) | .error _ => none)
       = [some "STRASSE É".toList, some "SSE ".toList, some "SSE !".toList, some "sse !".toList, some "Sse !".toList, none,
          some "S. !".toList, some " ".toList] := by
+  decide +kernel
+
+/-- **Normal form is preserved by concatenation, append and join** (for slice, index, case,
+capfirst / capitalize, add_period, split, abbreviate this is part of `C08_slice`, `C08_case_full`,
+`C08_capfirst_capitalize_full`, `C08_add_period_any`, `C08_split`, `C08_split_regex`,
+`C08_abbreviate`): applied to objects (normal forms) `+`, `append` and `join` return objects — no
+empty part, no nested `Text`, no two adjacent similar parts; and `split` at ANY separator (also the
+multi-character ones and `split(None, keep_empty_parts=True)`, whose pieces are not characterised by
+a theorem) returns objects. -/
+theorem C08_normal_preserved :
+    (∀ a b, Normal a = true → Normal b = true → Normal (add a b) = true) ∧
+    (∀ t x, Normal t = true → Normal x = true → Normal (append t x) = true) ∧
+    (∀ sep l, Normal sep = true → (∀ p ∈ l, Normal p = true) → Normal (join sep l) = true) ∧
+    (∀ t sep keep, Normal t = true → ∀ r ∈ split sep t keep, Normal r = true) :=
+  ⟨normal_add, normal_append, normal_join, fun t sep keep h => normal_split t h sep keep⟩
+
+/-- two `em` tags side by side are NOT an object as a raw tree, but `+`, `append`, `join` of the two
+objects give objects (the constructor inside merges the similar neighbours) -/
+theorem C08_normal_preserved_nonvacuous :
+    Normal (build (.node (.tag "em".toList) [.str "a".toList])) = true ∧
+    Normal (.node .text [.node (.tag "em".toList) [.str "a".toList], .node (.tag "em".toList) [.str "b".toList]]) = false ∧
+    Normal (add (build (.node (.tag "em".toList) [.str "a".toList])) (build (.node (.tag "em".toList) [.str "b".toList]))) = true ∧
+    Normal (append (build (.node .text [.node (.tag "em".toList) [.str "a".toList]])) (build (.node (.tag "em".toList) [.str "b".toList]))) = true ∧
+    Normal (join (build (.node (.tag "em".toList) [.str ",".toList]))
+      [build (.node (.tag "em".toList) [.str "a".toList]), .str [], build (.node (.tag "em".toList) [.str "b".toList])]) = true ∧
+    (split (.lit ',' [' ']) (build (.node .text [.str "a, ".toList, .node (.tag "em".toList) [.str "b".toList]])) none).all Normal = true := by
+  decide +kernel
+
+/-- **Normal form is an invariant of every history** — stated (in `C08_history` / `C08_history_full` it
+is only used inside the proof).  For ANY finite sequence of operations whose operands are objects —
+including the operations NOT covered by the history theorems (split at a multi-character separator,
+`split(None, keep_empty_parts=True)`, split at the dash pattern) — every text a step returns is an
+object, for the ASCII and for any case mapping. -/
+theorem C08_history_normal (t : RT) (ht : Normal t = true) :
+    (∀ (ops : List Op), (∀ op ∈ ops, op.OperandsNormal = true) →
+      ∀ x, Except.ok x ∈ run Gen.terminators t ops → Normal x = true) ∧
+    (∀ (cs : CaseSys) (ops : List OpG), (∀ op ∈ ops, op.OperandsNormal = true) →
+      ∀ x, Except.ok x ∈ runG cs Gen.terminators t ops → Normal x = true) :=
+  ⟨fun ops ho => run_normal Gen.terminators ops t ht ho, fun cs ops ho => runG_normal cs Gen.terminators ops t ht ho⟩
+
+/-- a history with an operation outside `Covered` (split at the two-character separator `", "`) and
+operands that are objects: all outcomes are objects -/
+theorem C08_history_normal_nonvacuous :
+    ([OpG.add (build (.node (.tag "em".toList) [.str "c, d".toList])), .splitPick (.lit ',' [' ']) none 1, .upper,
+      .joinWith [.str "x".toList, build (.node (.tag "em".toList) [.str "y".toList])]].all fun op => op.OperandsNormal) = true ∧
+    ([OpG.add (build (.node (.tag "em".toList) [.str "c, d".toList])), .splitPick (.lit ',' [' ']) none 1, .upper,
+      .joinWith [.str "x".toList, build (.node (.tag "em".toList) [.str "y".toList])]].all fun op => op.Covered) = false ∧
+    (runG uniCase Gen.terminators (build (.node .text [.str "ab ".toList, .node (.tag "em".toList) [.str "e".toList]]))
+      [.add (build (.node (.tag "em".toList) [.str "c, d".toList])), .splitPick (.lit ',' [' ']) none 1, .upper,
+       .joinWith [.str "x".toList, build (.node (.tag "em".toList) [.str "y".toList])]]).map
+        (fun r => match r with | .ok x => some (toStr x, Normal x) | .error _ => none)
+      = [some ("ab ec, d".toList, true), some ("d".toList, true), some ("D".toList, true), some ("xDy".toList, true)] := by
   decide +kernel
 
 end Pybtex.Props
